@@ -14,6 +14,17 @@ PROPS = {
         trusted_base=["DFKconvert is exercised but not modelled here (C06)", "non-HDF netCDF/CDF paths of the same functions are out of scope"],
         assumptions=["fixed-size variables in the placement tie (record variables are covered by the implementation oracle only)"],
     ),
+    "C16": dict(
+        lean_props=["H4.Props.C16"],
+        engines=[
+            E("hp", "e_hp.c", model="hp", wrap=True, quick=dict(cases=1500), thorough=dict(cases=20000, seeds=4, chunk=400)),
+            # exhaustive: one case per (workload, stdio call index, single|sticky); 4000 >= total (printed as INFO total_cases)
+            E("fault", "e_fault.c", model=None, wrap=True, quick=dict(cases=4000, chunk=125, timeout=1200), thorough=dict(cases=4000, chunk=125, timeout=1200)),
+        ],
+        trusted_base=["GNU ld --wrap interposition of fopen/fread/fwrite/fseek/fflush/fclose; streams are unbuffered so a library write is a physical write",
+                      "fault model: a failing call transfers nothing (engine fault) or half of the request (engine hp); a failing fclose still releases the descriptor"],
+        assumptions=["the workload library harness/workloads.h (13 workloads) is the quantification domain of the API-level enumeration; it is complete for that library, not for all programs"],
+    ),
     "C06": dict(
         lean_props=["H4.Props.C06"],
         engines=[
